@@ -1,1 +1,639 @@
-//! (module owned by its property check; see HARNESS_GUIDE.md)
+//! C15: reference semantics of ToUnicode CMaps, the definition menu, the choice recorder and the
+//! CMap text renderer (DESIGN §2.2, §4 C15). Nothing in this module calls lopdf.
+use serde_json::{json, Value};
+
+pub type Units = Vec<u16>;
+
+/// One mapping definition of a ToUnicode CMap.
+#[derive(Clone, Debug, PartialEq, Eq, Hash)]
+pub enum Def {
+    /// `<code> <t>` in a bfchar section
+    Char { len: u8, code: u32, t: Units },
+    /// `<lo> <hi> <t>` in a bfrange section: code maps to t with (code - lo) added to its last unit
+    Range { len: u8, lo: u32, hi: u32, t: Units },
+    /// `<lo> <hi> [<t0> <t1> ...]` in a bfrange section: code maps to ts[code - lo]
+    Array { len: u8, lo: u32, hi: u32, ts: Vec<Units> },
+}
+
+impl Def {
+    pub fn len(&self) -> u8 {
+        match self {
+            Def::Char { len, .. } | Def::Range { len, .. } | Def::Array { len, .. } => *len,
+        }
+    }
+    pub fn lo(&self) -> u32 {
+        match self {
+            Def::Char { code, .. } => *code,
+            Def::Range { lo, .. } | Def::Array { lo, .. } => *lo,
+        }
+    }
+    pub fn hi(&self) -> u32 {
+        match self {
+            Def::Char { code, .. } => *code,
+            Def::Range { hi, .. } | Def::Array { hi, .. } => *hi,
+        }
+    }
+    pub fn covers(&self, len: u8, code: u32) -> bool {
+        self.len() == len && self.lo() <= code && code <= self.hi()
+    }
+    /// true for definitions written in a bfrange section
+    pub fn in_range_section(&self) -> bool {
+        !matches!(self, Def::Char { .. })
+    }
+    /// The UTF-16 units this definition gives to `code` (which it must cover).
+    pub fn value(&self, code: u32) -> Units {
+        match self {
+            Def::Char { t, .. } => t.clone(),
+            Def::Range { lo, t, .. } => {
+                let mut v = t.clone();
+                let last = v.last_mut().expect("target has at least one unit");
+                *last = (*last as u32 + (code - lo)) as u16;
+                v
+            }
+            Def::Array { lo, ts, .. } => ts[(code - lo) as usize].clone(),
+        }
+    }
+    /// Well-formedness as the property's domain understands it: lo <= hi, code fits its length,
+    /// non-empty targets, an array has exactly hi-lo+1 elements, an incrementing range does not carry
+    /// out of the low byte of its last unit (ISO 32000-1 9.10.3 / Adobe TN 5014).
+    pub fn well_formed(&self) -> bool {
+        let l = self.len();
+        if !(1..=4).contains(&l) || self.lo() > self.hi() {
+            return false;
+        }
+        if l < 4 && self.hi() >= 1u32 << (8 * l as u32) {
+            return false;
+        }
+        match self {
+            Def::Char { t, .. } => !t.is_empty(),
+            Def::Range { lo, hi, t, .. } => !t.is_empty() && (*t.last().unwrap() as u32 & 0xff) + (hi - lo) <= 0xff,
+            Def::Array { lo, hi, ts, .. } => ts.len() as u64 == (*hi as u64 - *lo as u64 + 1) && ts.iter().all(|t| !t.is_empty()),
+        }
+    }
+    pub fn overlaps_or_touches(&self, other: &Def) -> bool {
+        self.len() == other.len()
+            && (self.lo() as u64) <= other.hi() as u64 + 1
+            && (other.lo() as u64) <= self.hi() as u64 + 1
+    }
+
+    pub fn to_json(&self) -> Value {
+        let l = self.len();
+        match self {
+            Def::Char { code, t, .. } => json!({"kind": "bfchar", "len": l, "code": hex_code(l, *code, false), "t": hex_units(t, false, false)}),
+            Def::Range { lo, hi, t, .. } => {
+                json!({"kind": "bfrange", "len": l, "lo": hex_code(l, *lo, false), "hi": hex_code(l, *hi, false), "t": hex_units(t, false, false)})
+            }
+            Def::Array { lo, hi, ts, .. } => json!({"kind": "bfrange_array", "len": l, "lo": hex_code(l, *lo, false), "hi": hex_code(l, *hi, false),
+                "ts": ts.iter().map(|t| hex_units(t, false, false)).collect::<Vec<_>>()}),
+        }
+    }
+    pub fn from_json(v: &Value) -> Result<Def, String> {
+        let len = v["len"].as_u64().ok_or("len")? as u8;
+        let code = |k: &str| -> Result<u32, String> { u32::from_str_radix(v[k].as_str().ok_or(k.to_string())?, 16).map_err(|e| e.to_string()) };
+        let units = |s: &str| -> Result<Units, String> {
+            if s.len() % 4 != 0 || s.is_empty() {
+                return Err(format!("bad target {}", s));
+            }
+            (0..s.len() / 4).map(|i| u16::from_str_radix(&s[4 * i..4 * i + 4], 16).map_err(|e| e.to_string())).collect()
+        };
+        match v["kind"].as_str() {
+            Some("bfchar") => Ok(Def::Char { len, code: code("code")?, t: units(v["t"].as_str().ok_or("t")?)? }),
+            Some("bfrange") => Ok(Def::Range { len, lo: code("lo")?, hi: code("hi")?, t: units(v["t"].as_str().ok_or("t")?)? }),
+            Some("bfrange_array") => {
+                let mut ts = vec![];
+                for t in v["ts"].as_array().ok_or("ts")? {
+                    ts.push(units(t.as_str().ok_or("ts item")?)?);
+                }
+                Ok(Def::Array { len, lo: code("lo")?, hi: code("hi")?, ts })
+            }
+            _ => Err("unknown kind".into()),
+        }
+    }
+}
+
+// ---------------------------------------------------------------------------------------------
+// reference semantics (the oracle)
+
+/// The last definition covering the code wins.
+pub fn winner(defs: &[Def], len: u8, code: u32) -> Option<usize> {
+    (0..defs.len()).rev().find(|&i| defs[i].covers(len, code))
+}
+
+pub fn lookup(defs: &[Def], len: u8, code: u32) -> Option<Units> {
+    winner(defs, len, code).map(|i| defs[i].value(code))
+}
+
+/// UTF-16 decoding: a high surrogate followed by a low surrogate is one character; a lone surrogate
+/// is U+FFFD (never produced by well-formed targets; kept so the function is total).
+pub fn utf16_to_string(units: &[u16]) -> String {
+    let mut out = String::new();
+    let mut i = 0;
+    while i < units.len() {
+        let u = units[i] as u32;
+        if (0xD800..0xDC00).contains(&u) && i + 1 < units.len() && (0xDC00..0xE000).contains(&(units[i + 1] as u32)) {
+            let c = 0x10000 + ((u - 0xD800) << 10) + (units[i + 1] as u32 - 0xDC00);
+            out.push(char::from_u32(c).unwrap());
+            i += 2;
+        } else if (0xD800..0xE000).contains(&u) {
+            out.push('\u{FFFD}');
+            i += 1;
+        } else {
+            out.push(char::from_u32(u).unwrap());
+            i += 1;
+        }
+    }
+    out
+}
+
+/// Text the CMap defines for a string of mapped codes; None if a code is unmapped (outside the domain).
+pub fn expected_text(defs: &[Def], input: &[(u8, u32)]) -> Option<String> {
+    let mut units = vec![];
+    for &(len, code) in input {
+        units.extend(lookup(defs, len, code)?);
+    }
+    Some(utf16_to_string(&units))
+}
+
+pub fn code_bytes(len: u8, code: u32) -> Vec<u8> {
+    code.to_be_bytes()[4 - len as usize..].to_vec()
+}
+
+pub fn input_bytes(input: &[(u8, u32)]) -> Vec<u8> {
+    input.iter().flat_map(|&(l, c)| code_bytes(l, c)).collect()
+}
+
+/// All mapped codes, sorted by (length, value), distinct.
+pub fn mapped_codes(defs: &[Def]) -> Vec<(u8, u32)> {
+    let mut v = vec![];
+    for d in defs {
+        for c in d.lo()..=d.hi() {
+            v.push((d.len(), c));
+        }
+    }
+    v.sort();
+    v.dedup();
+    v
+}
+
+/// The set of codes is prefix-free when no code of one length is the leading bytes of a longer code.
+pub fn prefix_free(codes: &[(u8, u32)]) -> bool {
+    for &(l1, c1) in codes {
+        for &(l2, c2) in codes {
+            if l1 < l2 && (c2 >> (8 * (l2 - l1) as u32)) == c1 {
+                return false;
+            }
+        }
+    }
+    true
+}
+
+/// How lopdf's `ToUnicodeCMap::from_sections` stores a definition. Used ONLY by the known-finding
+/// classifier predicates (which kinds are position-relative), never by the oracle.
+#[derive(Clone, Debug, PartialEq, Eq)]
+pub enum Stored {
+    Offset(u32),
+    Hex(Units),
+    Arr(Vec<Units>),
+}
+
+pub fn stored_kind(d: &Def) -> Stored {
+    match d {
+        Def::Char { code, t, .. } if t.len() == 1 => Stored::Offset((t[0] as u32).wrapping_sub(*code)),
+        Def::Char { t, .. } => Stored::Hex(t.clone()),
+        Def::Range { lo, t, .. } if t.len() == 1 => Stored::Offset((t[0] as u32).wrapping_sub(*lo)),
+        Def::Range { t, .. } => Stored::Hex(t.clone()),
+        Def::Array { lo, ts, .. } if ts.len() == 1 && ts[0].len() == 1 => Stored::Offset((ts[0][0] as u32).wrapping_sub(*lo)),
+        Def::Array { ts, .. } if ts.len() == 1 => Stored::Hex(ts[0].clone()),
+        Def::Array { ts, .. } => Stored::Arr(ts.clone()),
+    }
+}
+
+// ---------------------------------------------------------------------------------------------
+// definition menu
+
+pub const T_A: [u16; 1] = [0x0041];
+pub const T_LIG: [u16; 2] = [0x0066, 0x0069];
+pub const T_EMO: [u16; 2] = [0xD83D, 0xDE00];
+/// eight pairwise different array elements of all four target shapes
+pub const MIXED: [&[u16]; 8] = [
+    &[0x0061],
+    &[0x0066, 0x006C],
+    &[0xD83D, 0xDE42],
+    &[0x00FF],
+    &[0x0062],
+    &[0x0066, 0x0066, 0x0069],
+    &[0xD83C, 0xDF0D],
+    &[0x00FE],
+];
+
+#[derive(Clone, Copy, Debug, PartialEq, Eq)]
+pub enum Tgt {
+    A,
+    /// one unit chosen so that the LAST code of the definition maps to 00FF (no carry out of the low byte)
+    Ff,
+    Lig,
+    Emo,
+}
+
+fn target(t: Tgt, span: u32) -> Units {
+    match t {
+        Tgt::A => T_A.to_vec(),
+        Tgt::Ff => vec![(0x00FF - span) as u16],
+        Tgt::Lig => T_LIG.to_vec(),
+        Tgt::Emo => T_EMO.to_vec(),
+    }
+}
+
+fn array_target(n: u32, rot: u32) -> Vec<Units> {
+    (0..n).map(|i| MIXED[((i + rot) % 8) as usize].to_vec()).collect()
+}
+
+pub struct MenuParts {
+    pub menu: Vec<Def>,
+    /// index range of the 1-byte entries inside `menu` (used for the 3-/4-byte spot checks)
+    pub one_byte: std::ops::Range<usize>,
+}
+
+/// The ~175-entry definition menu of DESIGN §4 C15.
+pub fn menu() -> MenuParts {
+    let all = [Tgt::A, Tgt::Ff, Tgt::Lig, Tgt::Emo];
+    let mut m = vec![];
+    // 2-byte codes, window 0010..0017
+    let b2 = 0x0010u32;
+    let iv2: [(u32, u32); 12] = [(0, 7), (0, 3), (4, 7), (2, 5), (0, 1), (2, 3), (4, 5), (6, 7), (1, 2), (3, 4), (1, 6), (0, 5)];
+    for &(a, b) in &iv2 {
+        for t in all {
+            m.push(Def::Range { len: 2, lo: b2 + a, hi: b2 + b, t: target(t, b - a) });
+        }
+        for rot in [0, 1] {
+            m.push(Def::Array { len: 2, lo: b2 + a, hi: b2 + b, ts: array_target(b - a + 1, rot) });
+        }
+    }
+    for off in [0u32, 1, 2, 3, 4, 5, 7] {
+        for t in all {
+            m.push(Def::Char { len: 2, code: b2 + off, t: target(t, 0) });
+        }
+    }
+    // one-code ranges (lo == hi) written as bfrange, incl. one-element arrays of each shape
+    for t in all {
+        m.push(Def::Range { len: 2, lo: b2 + 3, hi: b2 + 3, t: target(t, 0) });
+    }
+    for rot in [0, 1, 2] {
+        m.push(Def::Array { len: 2, lo: b2 + 3, hi: b2 + 3, ts: array_target(1, rot) });
+    }
+    // 2-byte codes across the 00FF/0100 boundary
+    for &(lo, hi) in &[(0x00FEu32, 0x0101u32), (0x00FE, 0x00FF), (0x0100, 0x0101), (0x00FF, 0x0100)] {
+        for t in all {
+            m.push(Def::Range { len: 2, lo, hi, t: target(t, hi - lo) });
+        }
+        m.push(Def::Array { len: 2, lo, hi, ts: array_target(hi - lo + 1, 1) });
+    }
+    for code in [0x00FEu32, 0x00FF, 0x0100, 0x0101] {
+        for t in [Tgt::A, Tgt::Emo] {
+            m.push(Def::Char { len: 2, code, t: target(t, 0) });
+        }
+    }
+    // 1-byte codes, window 10..17
+    let start1 = m.len();
+    let b1 = 0x10u32;
+    for &(a, b) in &[(0u32, 7u32), (0, 3), (4, 7), (2, 5), (2, 3)] {
+        for t in all {
+            m.push(Def::Range { len: 1, lo: b1 + a, hi: b1 + b, t: target(t, b - a) });
+        }
+        m.push(Def::Array { len: 1, lo: b1 + a, hi: b1 + b, ts: array_target(b - a + 1, 1) });
+    }
+    for off in [0u32, 2, 3, 4, 7] {
+        for t in [Tgt::Lig, Tgt::Ff] {
+            m.push(Def::Char { len: 1, code: b1 + off, t: target(t, 0) });
+        }
+    }
+    let end1 = m.len();
+    debug_assert!(m.iter().all(|d| d.well_formed()));
+    MenuParts { menu: m, one_byte: start1..end1 }
+}
+
+/// Move a 1-byte definition to a longer code length: code c becomes base + c.
+pub fn transpose(d: &Def, len: u8, base: u32) -> Def {
+    match d {
+        Def::Char { code, t, .. } => Def::Char { len, code: base + code, t: t.clone() },
+        Def::Range { lo, hi, t, .. } => Def::Range { len, lo: base + lo, hi: base + hi, t: t.clone() },
+        Def::Array { lo, hi, ts, .. } => Def::Array { len, lo: base + lo, hi: base + hi, ts: ts.clone() },
+    }
+}
+
+// ---------------------------------------------------------------------------------------------
+// choice recorder (DESIGN §2.2)
+
+#[derive(Clone, Debug, PartialEq, Eq)]
+pub struct Site {
+    pub class: &'static str,
+    pub n: usize,
+    /// liberal = PostScript allows the spelling but it is outside the conservative template variations
+    pub liberal: bool,
+}
+
+/// Replays a choice vector (missing entries = 0, the plainest spelling) and records the sites met.
+pub struct Chooser<'a> {
+    script: &'a [usize],
+    pub sites: Vec<Site>,
+    pub error: Option<String>,
+}
+
+impl<'a> Chooser<'a> {
+    pub fn new(script: &'a [usize]) -> Chooser<'a> {
+        Chooser { script, sites: vec![], error: None }
+    }
+    pub fn choose(&mut self, class: &'static str, n: usize, liberal: bool) -> usize {
+        let i = self.sites.len();
+        self.sites.push(Site { class, n, liberal });
+        let v = self.script.get(i).copied().unwrap_or(0);
+        if v >= n {
+            self.error = Some(format!("choice {} at site {} ({}) out of range 0..{}", v, i, class, n));
+            return 0;
+        }
+        v
+    }
+    /// After rendering: the script must not be longer than the sites met.
+    pub fn finish(&mut self) -> Result<(), String> {
+        if let Some(e) = self.error.take() {
+            return Err(e);
+        }
+        if self.script.len() > self.sites.len() {
+            return Err(format!("choice vector has {} entries but only {} sites were met", self.script.len(), self.sites.len()));
+        }
+        Ok(())
+    }
+}
+
+// ---------------------------------------------------------------------------------------------
+// renderer
+
+pub fn hex_code(len: u8, code: u32, lower: bool) -> String {
+    let s = format!("{:0width$X}", code, width = 2 * len as usize);
+    if lower {
+        s.to_lowercase()
+    } else {
+        s
+    }
+}
+
+pub fn hex_units(t: &[u16], lower: bool, spaced: bool) -> String {
+    let v: Vec<String> = t.iter().map(|u| if lower { format!("{:04x}", u) } else { format!("{:04X}", u) }).collect();
+    v.join(if spaced { " " } else { "" })
+}
+
+struct Style {
+    eol: &'static str,
+    sep: &'static str,
+    lower: bool,
+    gap: usize,
+    trail: &'static str,
+    indent: &'static str,
+    unitsp: bool,
+    arrpad: bool,
+    arrsep: usize,
+    lohibreak: bool,
+    tgtbreak: bool,
+    oneline: bool,
+}
+
+fn codespace_lines(defs: &[Def], lower: bool) -> Vec<String> {
+    let mut lens: Vec<u8> = defs.iter().map(|d| d.len()).collect();
+    lens.sort();
+    lens.dedup();
+    let mut out = vec![];
+    for l in &lens {
+        let (lo, hi) = if lens.len() == 1 {
+            (0u32, if *l == 4 { u32::MAX } else { (1u32 << (8 * *l as u32)) - 1 })
+        } else {
+            // several code lengths: non-overlapping code spaces, each the tight hull of its codes
+            let lo = defs.iter().filter(|d| d.len() == *l).map(|d| d.lo()).min().unwrap();
+            let hi = defs.iter().filter(|d| d.len() == *l).map(|d| d.hi()).max().unwrap();
+            (lo, hi)
+        };
+        out.push(format!("<{}> <{}>", hex_code(*l, lo, lower), hex_code(*l, hi, lower)));
+    }
+    out
+}
+
+fn mapping_line(d: &Def, s: &Style) -> String {
+    let l = d.len();
+    let tgt = |t: &Units| format!("<{}>", hex_units(t, s.lower, s.unitsp));
+    let before_target = if s.tgtbreak { s.eol } else { s.sep };
+    let mut line = String::from(s.indent);
+    match d {
+        Def::Char { code, t, .. } => {
+            line += &format!("<{}>{}{}", hex_code(l, *code, s.lower), before_target, tgt(t));
+        }
+        Def::Range { lo, hi, .. } | Def::Array { lo, hi, .. } => {
+            let between = if s.lohibreak { s.eol } else { s.sep };
+            line += &format!("<{}>{}<{}>{}", hex_code(l, *lo, s.lower), between, hex_code(l, *hi, s.lower), before_target);
+            match d {
+                Def::Range { t, .. } => line += &tgt(t),
+                Def::Array { ts, .. } => {
+                    let pad = if s.arrpad { " " } else { "" };
+                    let esep = match s.arrsep {
+                        1 => s.eol,
+                        2 => "",
+                        _ if s.sep.is_empty() => " ",
+                        _ => s.sep,
+                    };
+                    line += "[";
+                    line += if s.arrsep == 1 { s.eol } else { pad };
+                    line += &ts.iter().map(|t| tgt(t)).collect::<Vec<_>>().join(esep);
+                    line += pad;
+                    line += "]";
+                }
+                _ => unreachable!(),
+            }
+        }
+    }
+    line += s.trail;
+    line
+}
+
+/// Render the definitions as the text of a ToUnicode CMap stream. Every syntactic freedom is one
+/// `choose` call; with an all-zero chooser the ISO 32000-1 9.10.3 template comes out, one section per
+/// definition in order. Section order is never changed (it is semantic).
+pub fn render(defs: &[Def], ch: &mut Chooser) -> Vec<u8> {
+    let multi_unit = defs.iter().any(|d| match d {
+        Def::Char { t, .. } | Def::Range { t, .. } => t.len() > 1,
+        Def::Array { ts, .. } => ts.iter().any(|t| t.len() > 1),
+    });
+    let any_array = defs.iter().any(|d| matches!(d, Def::Array { .. }));
+    let any_array2 = defs.iter().any(|d| matches!(d, Def::Array { ts, .. } if ts.len() > 1));
+    let any_range = defs.iter().any(|d| d.in_range_section());
+
+    let header = ch.choose("header", 4, false);
+    let eol = ["\n", "\r\n", "\r"][ch.choose("eol", 3, false)];
+    let sep = [" ", "  ", "\t", ""][ch.choose("sep", 4, false)];
+    let lower = ch.choose("hexcase", 2, false) == 1;
+    let gap = ch.choose("gap", 4, false);
+    let trail = ["", " "][ch.choose("trail", 2, false)];
+    let indent = ["", "  ", "\t"][ch.choose("indent", 3, false)];
+    let unitsp = multi_unit && ch.choose("unitsp", 2, false) == 1;
+    let arrpad = any_array && ch.choose("arrpad", 2, false) == 1;
+    let arrsep = if any_array2 { ch.choose("L:arrsep", 3, true) } else { 0 };
+    let lohibreak = any_range && ch.choose("L:lohibreak", 2, true) == 1;
+    let tgtbreak = ch.choose("L:tgtbreak", 2, true) == 1;
+    let oneline = ch.choose("L:oneline", 2, true) == 1;
+    let s = Style { eol, sep, lower, gap, trail, indent, unitsp, arrpad, arrsep, lohibreak, tgtbreak, oneline };
+
+    // sections: runs of consecutive same-kind definitions may be merged (one choice per boundary)
+    let mut sections: Vec<Vec<&Def>> = vec![];
+    for (i, d) in defs.iter().enumerate() {
+        let mergeable = i > 0 && defs[i - 1].in_range_section() == d.in_range_section();
+        if mergeable && ch.choose("merge", 2, false) == 1 {
+            sections.last_mut().unwrap().push(d);
+        } else {
+            sections.push(vec![d]);
+        }
+    }
+
+    let mut out = String::new();
+    let mut line = |out: &mut String, l: &str| {
+        out.push_str(l);
+        out.push_str(s.eol);
+    };
+    match header {
+        0 => {
+            for l in [
+                "/CIDInit /ProcSet findresource begin",
+                "12 dict begin",
+                "begincmap",
+                "/CIDSystemInfo",
+                "<< /Registry (Adobe)",
+                "/Ordering (UCS)",
+                "/Supplement 0",
+                ">> def",
+                "/CMapName /Adobe-Identity-UCS def",
+                "/CMapType 2 def",
+            ] {
+                line(&mut out, l);
+            }
+        }
+        1 => {
+            for l in [
+                "/CIDInit/ProcSet findresource begin",
+                "12 dict begin",
+                "begincmap",
+                "/CIDSystemInfo<<",
+                "/Registry (Adobe)",
+                "/Ordering (UCS)",
+                "/Supplement 0",
+                ">> def",
+                "/CMapName/Adobe-Identity-UCS def",
+                "/CMapType 2 def",
+            ] {
+                line(&mut out, l);
+            }
+        }
+        2 => {
+            for l in ["/CIDInit /ProcSet findresource begin", "12 dict begin", "begincmap", "/CMapType 2 def", "/CMapName/R27 def"] {
+                line(&mut out, l);
+            }
+        }
+        _ => {
+            for l in [
+                "%!PS-Adobe-3.0 Resource-CMap",
+                "%%DocumentNeededResources: ProcSet (CIDInit)",
+                "%%IncludeResource: ProcSet (CIDInit)",
+                "%%BeginResource: CMap (Verif-UCMap)",
+                "%%Title: (Verif-UCMap verif Verif-UCMap 0)",
+                "%%EndComments",
+                "",
+                "/CIDInit /ProcSet findresource begin",
+                "",
+                "12 dict begin",
+                "",
+                "begincmap",
+                "",
+                "/CIDSystemInfo 3 dict dup begin",
+                "  /Registry (verif) def",
+                "  /Ordering (Verif-UCMap) def",
+                "  /Supplement 0 def",
+                "end def",
+                "",
+                "/CMapName /Verif-UCMap def",
+                "/CMapType 2 def",
+                "",
+            ] {
+                line(&mut out, l);
+            }
+        }
+    }
+    let cs = codespace_lines(defs, s.lower);
+    line(&mut out, &format!("{} begincodespacerange", cs.len()));
+    for l in &cs {
+        line(&mut out, l);
+    }
+    line(&mut out, "endcodespacerange");
+
+    let word_sep = if s.sep.is_empty() { " " } else { s.sep };
+    for sec in &sections {
+        match s.gap {
+            1 => line(&mut out, ""),
+            2 => line(&mut out, "% next section"),
+            3 => {
+                line(&mut out, "");
+                line(&mut out, "%%comment <0010> <0041> endbfchar");
+                line(&mut out, "");
+            }
+            _ => {}
+        }
+        let kind = if sec[0].in_range_section() { "bfrange" } else { "bfchar" };
+        let inner_eol = if s.oneline { " " } else { s.eol };
+        out.push_str(&format!("{}{}begin{}{}{}", sec.len(), word_sep, kind, s.trail, inner_eol));
+        for d in sec {
+            out.push_str(&mapping_line(d, &s));
+            out.push_str(inner_eol);
+        }
+        out.push_str(&format!("end{}", kind));
+        out.push_str(s.eol);
+    }
+    line(&mut out, "endcmap");
+    line(&mut out, "CMapName currentdict /CMap defineresource pop");
+    match header {
+        2 => line(&mut out, "end end"),
+        3 => {
+            for l in ["end", "end", "", "%%EndResource", "%%EOF"] {
+                line(&mut out, l);
+            }
+        }
+        _ => {
+            line(&mut out, "end");
+            line(&mut out, "end");
+        }
+    }
+    out.into_bytes()
+}
+
+#[cfg(test)]
+mod tests {
+    use super::*;
+
+    #[test]
+    fn reference_semantics() {
+        let defs = vec![
+            Def::Range { len: 2, lo: 0x10, hi: 0x17, t: T_EMO.to_vec() },
+            Def::Char { len: 2, code: 0x11, t: T_A.to_vec() },
+        ];
+        assert_eq!(lookup(&defs, 2, 0x12), Some(vec![0xD83D, 0xDE02]));
+        assert_eq!(lookup(&defs, 2, 0x11), Some(vec![0x41]));
+        assert_eq!(lookup(&defs, 1, 0x11), None);
+        assert_eq!(expected_text(&defs, &[(2, 0x12), (2, 0x11)]).unwrap(), "\u{1F602}A");
+        assert_eq!(utf16_to_string(&[0xD83D, 0x41]), "\u{FFFD}A");
+    }
+
+    #[test]
+    fn menu_is_well_formed() {
+        let m = menu();
+        assert!(m.menu.iter().all(|d| d.well_formed()));
+        assert!((160..=190).contains(&m.menu.len()), "menu size {}", m.menu.len());
+        for d in &m.menu {
+            assert_eq!(&Def::from_json(&d.to_json()).unwrap(), d);
+        }
+        let codes = mapped_codes(&m.menu);
+        assert!(prefix_free(&codes));
+    }
+}
